@@ -124,8 +124,7 @@ class C14(ProtoSpec):
             binds = [[(X, "A")], [(X, "A"), (X, "B")], [(X, "A"), (X, "B"), (X, "C")]]
             self.driver = Driver(binds, names=("1",), mids=("m",), msgs=(("p", "00", "i1"),),
                                  kinds=("bind", "claim", "release", "open", "add", "close"),
-                                 release_forms=("bare",), close_forms=("bare", "unopened"), moods=("happy",), max_adds=1,
-                                 ticks=(10.25,), max_ticks=1)
+                                 release_forms=("bare",), close_forms=("bare", "unopened"), moods=("happy",), max_adds=1)
             self.depth = 7
         else:
             binds = [[(X, "A")], [(X, "A"), (X, "B")], [(X, "A"), (X, "B"), (X, "C")], [(X, "A"), (X, "B"), (X, "C")]]
@@ -157,6 +156,26 @@ class C14(ProtoSpec):
         return mon.dupped
 
 
+class C14Clock(C14):
+    """the same with a clock advance somewhere before the duplicated command (the duplicate still arrives at the instant
+    of the original): narrow, from a state in which both sides already share the nameplate / the mailbox"""
+
+    def configure(self, tier):
+        C14.configure(self, tier)
+        X = "X"
+        binds = [[(X, "A")], [(X, "B")], [(X, "A"), (X, "B")], [(X, "A"), (X, "B")]]
+        self.driver = Driver(binds, names=("1",), mids=("m",), msgs=(("p", "00", "i1"),),
+                             kinds=("bind", "claim", "release", "open", "add", "close"),
+                             release_forms=("bare",), close_forms=("bare", "unopened"), moods=("happy",), max_adds=1,
+                             ticks=(10.25,), max_ticks=1, max_conns=3 if tier == "quick" else 4)
+        self.depth = 4 if tier == "quick" else 6
+
+    def seeds(self):
+        A, B = ("cbind", 0, "X", "A"), ("cbind", 1, "X", "B")
+        return [[A, B, ("claim", 0, "1"), ("claim", 1, "1")],
+                [A, B, ("open", 0, "m"), ("open", 1, "m"), ("add", 0, "p", "00", "i1")]]
+
+
 RULE = ("lockstep product: world 0 runs the base history, world 1 the same history with ONE acknowledged "
         "claim/release/open/close re-sent immediately afterwards on a fresh connection of the same side (bind, the "
         "command with explicit nameplate/mailbox, disconnect; same virtual instant); every position of the duplicate in "
@@ -165,10 +184,12 @@ RULE = ("lockstep product: world 0 runs the base history, world 1 the same histo
 
 
 def make_spec(tier, name=None):
-    return C14(tier)
+    return C14Clock(tier) if name == "c14-clock" else C14(tier)
 
 
 def run(pid, tier, seed, args):
     from .base_run import run_specs
     spec = make_spec(tier)
-    return run_specs(pid, tier, seed, args, [("c14", spec, spec.depth, 100 if tier == "quick" else 1500)], rule=RULE)
+    clock = make_spec(tier, "c14-clock")
+    b = 100 if tier == "quick" else 1500
+    return run_specs(pid, tier, seed, args, [("c14", spec, spec.depth, b), ("c14-clock", clock, clock.depth, b / 2)], rule=RULE)
